@@ -40,13 +40,28 @@ static char *add_boundary_to_regex(zckCtx *zck, const char *regex,
 
     if(regex == NULL || boundary == NULL)
         return NULL;
+    /* The boundary is matched literally, so escape regex metacharacters */
+    char *escaped = zmalloc(strlen(boundary) * 2 + 1);
+    if(!escaped) {
+        set_error(zck, "Unable to build regular expression");
+        return NULL;
+    }
+    char *e = escaped;
+    for(const char *b = boundary; *b; b++) {
+        if(strchr(".[]{}()*+?|^$\\", *b))
+            *e++ = '\\';
+        *e++ = *b;
+    }
+    boundary = escaped;
     char *regex_b = zmalloc(strlen(regex) + strlen(boundary) + 1);
     if(!regex_b || snprintf(regex_b, strlen(regex) + strlen(boundary), regex,
                 boundary) != strlen(regex) + strlen(boundary) - 2) {
         free(regex_b);
+        free(escaped);
         set_error(zck, "Unable to build regular expression");
         return NULL;
     }
+    free(escaped);
     return regex_b;
 }
 
@@ -79,6 +94,9 @@ static bool gen_regex(zckDL *dl) {
         return false;
     dl->dl_regex = zmalloc(sizeof(regex_t));
     if(!dl->dl_regex || !create_regex(dl->zck, dl->dl_regex, regex_n)) {
+        /* Don't leave an uncompiled pattern behind */
+        free(dl->dl_regex);
+        dl->dl_regex = NULL;
         free(regex_n);
         return false;
     }
@@ -88,6 +106,11 @@ static bool gen_regex(zckDL *dl) {
         return false;
     dl->end_regex = zmalloc(sizeof(regex_t));
     if(!dl->end_regex || !create_regex(dl->zck, dl->end_regex, regex_e)) {
+        free(dl->end_regex);
+        dl->end_regex = NULL;
+        regfree(dl->dl_regex);
+        free(dl->dl_regex);
+        dl->dl_regex = NULL;
         free(regex_e);
         return false;
     }
